@@ -4,7 +4,7 @@ Towards `_reabsorb_solver`: the semantic core of the case `len(parts) == len(old
 models of the split (merged) solver restricted to the part's variables; `ModelCacheMixin.update` hands to the old child `t` those
 of them whose key set is `t.variables`.  Such a model is a model of `t`'s constraints — without any assumption on how the
 parts relate to the old children (no "every child is connected"): it agrees on `t.variables` with a model of ALL the merged
-constraints.  (Why `CInv` itself is not re-established as stated: `C12_reabsorb_breaks_CInv_as_stated`.)
+constraints.  (What is still open about `_reabsorb_solver`: `ReabsorbKeeps`, CompositeKeep.lean.)
 -/
 namespace Claripy.Solver
 
